@@ -29,6 +29,11 @@ Definition run_C06 (i : term) : term :=
     let tbl := gn i 4 in
     let '(err, p', msgs) := apply_focus (tbl_M tbl) (tbl_V tbl) uts p (units_of (gn i 3)) (cfg_of (gn i 2)) in
     TL (TS err :: obs_profile p' ++ [of_ss msgs])
+  else if String.eqb op "rawreport" then
+    (* generateRawReport applies the filters exactly once, with and without relative_percentages *)
+    let tbl := gn i 4 in
+    let '(err, p', msgs) := apply_focus (tbl_M tbl) (tbl_V tbl) uts p (units_of (gn i 3)) (cfg_of (gn i 2)) in
+    TL (TS err :: obs_profile p')
   else TL [TS "bad-op"].
 
 Definition eqv_C06 (i m o : term) : bool := term_eqb m o.
@@ -58,7 +63,7 @@ Definition spec_C06 (i o : term) : bool :=
   else if String.eqb op "tagsbyname" then
     String.eqb (gs (gn o 0)) "ok" &&
     fsamples_eqb (fsamples p') (spec_tags_by_name (tbl_M (gn i 4)) (opt_s (gn i 2)) (opt_s (gn i 3)) (fsamples p))
-  else if String.eqb op "applyfocus" then
+  else if String.eqb op "applyfocus" || String.eqb op "rawreport" then
     let c := cfg_of (gn i 2) in
     if String.eqb (gs (gn o 0)) "" then
       fsamples_eqb (fsamples p') (spec_pipeline (gn i 4) p (units_of (gn i 3)) c)
@@ -74,7 +79,7 @@ Definition cls_C06 (i : term) : list Z :=
     ++ (if in_F24 M p (opt_s (gn i 5)) then [24] else [])
   else if String.eqb op "showfrom" then
     if in_F25 (tbl_M (gn i 3)) p (opt_s (gn i 2)) then [25] else []
-  else if String.eqb op "applyfocus" then
+  else if String.eqb op "applyfocus" || String.eqb op "rawreport" then
     let tbl := gn i 4 in let M := tbl_M tbl in
     let c := cfg_of (gn i 2) in
     if negb (all_rx_ok tbl c) then [] else
